@@ -35,6 +35,8 @@
 (*   ServerSkipsClientAuth   the server never requests / checks a client   *)
 (*                           certificate (expected fingerprint unused)     *)
 (*   Epoch0AppData           plaintext ApplicationData is delivered        *)
+(*   Epoch0HandshakeAfterKeys a plaintext handshake message can advance or  *)
+(*                           fail the handshake after keys were negotiated *)
 (***************************************************************************)
 EXTENDS Naturals, Integers, Sequences, FiniteSets, TLC
 
@@ -53,6 +55,7 @@ Range(s) == {s[i] : i \in 1..Len(s)}
 (* Symbolic terms                                                           *)
 
 NoMaster == [pre |-> {}, cr |-> "-", sr |-> "-", sh |-> <<>>]
+JunkMaster == [pre |-> {"junk"}, cr |-> "-", sr |-> "-", sh |-> <<>>]      \* keys nobody holds
 NoFin    == [role |-> "-", master |-> NoMaster, tr |-> <<>>]
 
 \* One record = one datagram (rustrtc sends one record per datagram).
@@ -61,13 +64,13 @@ NoFin    == [role |-> "-", master |-> NoMaster, tr |-> <<>>]
 Msg(t, ms) ==
   [t |-> t, ms |-> ms, frag |-> 0, nfrag |-> 1,
    rnd |-> "-", ck |-> FALSE, prof |-> "-", cert |-> "-", dh |-> "-",
-   sigBy |-> "-", sigCr |-> "-", sigSr |-> "-", sigDh |-> "-", sigTr |-> <<>>,
+   sigBy |-> "-", sigCr |-> "-", sigSr |-> "-", sigDh |-> "-", sigTr |-> <<>>, sigN |-> "-",
    fin |-> NoFin, enc |-> NoMaster, bad |-> FALSE]
 
 \* What enters the handshake transcript (the bytes of the message, abstractly).
 Dig(m) == [t |-> m.t, ms |-> m.ms, rnd |-> m.rnd, ck |-> m.ck, prof |-> m.prof, cert |-> m.cert,
            dh |-> m.dh, sigBy |-> m.sigBy, sigCr |-> m.sigCr, sigSr |-> m.sigSr, sigDh |-> m.sigDh,
-           bad |-> m.bad]
+           sigN |-> m.sigN, bad |-> m.bad]
 
 Master(own, peer, cr, sr, sh) == [pre |-> {own, peer}, cr |-> cr, sr |-> sr, sh |-> sh]
 Fin(role, master, tr) == [role |-> role, master |-> master, tr |-> tr]
@@ -92,6 +95,7 @@ Res(s, out) == [s |-> s, out |-> out]
 Fail(s) == Res([s EXCEPT !.st = "Failed"], <<>>)
 
 CanDecrypt(s, m) == s.keys # NoMaster /\ m.enc = s.keys
+Plaintext(m) == m.enc = NoMaster          \* an epoch-0 record: anybody on the path can read and forge it
 
 \* The client starts by sending ClientHello (handshake(), is_client branch).
 StartOf(s) ==
@@ -187,7 +191,10 @@ RecvCV(s, m) ==
 \* handle_finished
 RecvFIN(s, m) ==
   IF s.role = "S"
-  THEN IF s.keys = NoMaster THEN Fail(s)                               \* "Session keys not derived"
+  THEN IF s.keys = NoMaster
+       THEN \* "Session keys not derived": the code still emits a (useless) CCS + Finished before it fails
+            Res([s EXCEPT !.st = "Failed"],
+                <<Flight(<<Msg("CCS", 0), [Msg("FIN", s.sendSeq) EXCEPT !.bad = TRUE, !.enc = JunkMaster]>>, FALSE, "first")>>)
        ELSE IF m.fin # Fin("C", s.keys, s.tr) THEN Fail(s)
        ELSE IF ClientAuth /\ s.expFp # "none" /\ ~(s.peerCert = s.expFp /\ s.cvOk) THEN Fail(s)
        ELSE LET tr1 == Append(s.tr, Dig(m))
@@ -290,13 +297,15 @@ HsResults(s, m) ==
 RecvResults(s, m) ==
   IF s.st = "Failed" THEN {Res(s, <<>>)}                                 \* the task has exited
   ELSE IF m.t = "CCS" THEN {Res(s, <<>>)}
+  ELSE IF m.t \in {"FIN", "APP"} /\ ~Plaintext(m) /\ ~CanDecrypt(s, m)
+  THEN {Res(IF m.t = "APP" /\ s.st = "Connected" THEN [s EXCEPT !.appBad = s.appBad + 1] ELSE s, <<>>)}
+                                                                         \* undecryptable record: dropped
   ELSE IF m.t = "APP"
-  THEN IF CanDecrypt(s, m) THEN {Res([s EXCEPT !.appGot = s.appGot + 1], <<>>)}
-       ELSE IF m.enc = NoMaster /\ Dev("Epoch0AppData") THEN {Res([s EXCEPT !.appGot = s.appGot + 1], <<>>)}
-       ELSE IF m.enc # NoMaster /\ s.st = "Connected" THEN {Res([s EXCEPT !.appBad = s.appBad + 1], <<>>)}
-       ELSE {Res(s, <<>>)}
-  ELSE IF m.t = "FIN" /\ ~m.bad /\ ~CanDecrypt(s, m) THEN {Res(s, <<>>)} \* undecryptable record: dropped
-                                                                         \* (bad = injected in plaintext, epoch 0)
+  THEN IF ~Plaintext(m) \/ Dev("Epoch0AppData")
+       THEN {Res([s EXCEPT !.appGot = s.appGot + 1], <<>>)}
+       ELSE {Res(s, <<>>)}                                               \* plaintext ApplicationData: never
+  ELSE IF Plaintext(m) /\ s.keys # NoMaster /\ m.ms >= s.recvSeq /\ ~Dev("Epoch0HandshakeAfterKeys")
+  THEN {Res(s, <<>>)}        \* once keys exist only the protected Finished may advance or fail the handshake
   ELSE HsResults(s, m)
 
 \* handle_retransmit: while Handshaking the last flight is resent on every tick.
@@ -316,8 +325,9 @@ AppOf(s) == [Msg("APP", 0) EXCEPT !.enc = s.keys]
 Rewrite(kind, m) ==
   CASE kind = "rw_cert"     -> [m EXCEPT !.cert = "certM"]
     [] kind = "rw_ske_key"  -> [m EXCEPT !.dh = "dhM"]                                   \* signature left as is
-    [] kind = "rw_ske_sig"  -> [m EXCEPT !.sigBy = "certM"]                              \* re-signed by M
-    [] kind = "rw_ske_full" -> [m EXCEPT !.dh = "dhM", !.sigDh = "dhM", !.sigBy = "certM"]
+    [] kind = "rw_ske_sig"  -> [m EXCEPT !.sigBy = "certM", !.sigN = "M"]                \* re-signed by M (ECDSA is
+                                                                                         \* randomised: new bytes)
+    [] kind = "rw_ske_full" -> [m EXCEPT !.dh = "dhM", !.sigDh = "dhM", !.sigBy = "certM", !.sigN = "M"]
     [] kind = "rw_crand"    -> [m EXCEPT !.rnd = "rM"]
     [] kind = "rw_srand"    -> [m EXCEPT !.rnd = "rM"]
     [] kind = "rw_prof"     -> [m EXCEPT !.prof = "7"]
